@@ -34,6 +34,9 @@ pub use self::{
     user::{SignedUser, SignedUserAttribute},
 };
 
+#[cfg(rpgp_verif)]
+pub use self::timestamp::verif_clock;
+
 /// Specify the type of an encrypted session key.
 ///
 /// This distinguishes between the two generations of encrypted session key:
